@@ -150,21 +150,22 @@ def gen_driver(info: ProgInfo):
     w("static void move_state(void) { unsigned char *nb = malloc(sizeof(ST) + 2 * GUARD); memcpy(nb, blk, sizeof(ST) + 2 * GUARD); memset(blk, 0x5A, sizeof(ST) + 2 * GUARD); free(blk); blk = nb; cur = (ST *)(blk + GUARD); }")
     w("static unsigned rd_u32(void) { unsigned char b[4]; if (fread(b, 1, 4, stdin) != 4) exit(5); return b[0] | (b[1] << 8) | (b[2] << 16) | ((unsigned)b[3] << 24); }")
     w("static long long rd_i64(void) { unsigned char b[8]; unsigned long long v = 0; int i; if (fread(b, 1, 8, stdin) != 8) exit(5); for (i = 7; i >= 0; --i) v = (v << 8) | b[i]; return (long long)v; }")
-    w("int main(void) { int c; int flags = 0; out = stdout; signal(SIGALRM, hang);")
+    w("int main(void) { int c; int flags = 0; int dead = 0; out = stdout; signal(SIGALRM, hang);")
     w("  static char obuf[1 << 16]; setvbuf(stdout, obuf, _IOFBF, sizeof obuf);")
     w("  while ((c = getchar()) != EOF) { switch (c) {")
     # S
-    w("  case 'S': { flags = getchar(); fprintf(out, \"B\\n\"); cur = alloc_state(); memset(cur, 0xA5, sizeof(ST)); base_off = 0;")
+    w("  case 'S': { flags = getchar(); dead = 0; fprintf(out, \"B\\n\"); cur = alloc_state(); memset(cur, 0xA5, sizeof(ST)); base_off = 0;")
     for v in info.vars:
         if v.type in (OST.INT, OST.BOOL, OST.ENUM) and v.out.default_value is None:
             w("    memset(&cur->c.%s, 0, sizeof(cur->c.%s));" % (v.name, v.name))
     if info.hook_per_state:
         for h in info.hooks:
             w("    cur->%s_hook = hook_%s;" % (h, h))
-    w("    alarm(5); { int r = (int)%s_start(cur); alarm(0); fprintf(out, \"R start %%d -1 \", r); snap(cur); } check_guard(); break; }" % n)
+    w("    alarm(5); { int r = (int)%s_start(cur); alarm(0); fprintf(out, \"R start %%d -1 \", r); snap(cur); if (r != 0) dead = 1; } check_guard(); break; }" % n)
     # F
     w("  case 'F': { unsigned len = rd_u32(); unsigned char *buf = malloc(len ? len : 1); const uint8_t *p, *e; int r; int guard = 0;")
     w("    if (len && fread(buf, 1, len, stdin) != len) exit(5);")
+    w("    if (dead) { free(buf); break; }   /* the program finished: further calls are outside the documented protocol */")
     w("    if (flags & 1) move_state();")
     w("    p = buf; e = buf + len;")
     if info.indirect:
@@ -172,14 +173,16 @@ def gen_driver(info: ProgInfo):
         w("      fprintf(out, \"R feed %d %ld \", r, base_off + (long)(p - buf)); snap(cur); check_guard();")
         w("      if (++guard > 100000) { fprintf(out, \"YIELDSPIN\\n\"); fflush(out); _exit(3); }")
         w("    } while (r >= %d && r < %d);" % (info.first_yield, len(info.codes)))
+        w("    if (r == 2 || (r >= 3 && r < %d)) dead = 1;" % info.first_yield)
     else:
         w("    alarm(5); r = (int)%s_feed(p, e, cur); alarm(0); (void)guard;" % n)
         w("    fprintf(out, \"R feed %d -1 \", r); snap(cur); check_guard();")
+        w("    if (r == 2 || (r >= 3 && r < %d)) dead = 1;" % info.first_yield)
     w("    base_off += len; memset(buf, 0xEE, len); free(buf); break; }")
     # E
     w("  case 'E': {")
     if info.eof:
-        w("    int r; if (flags & 1) move_state(); alarm(5); r = (int)%s_end(cur); alarm(0); fprintf(out, \"R end %%d -1 \", r); snap(cur); check_guard();" % n)
+        w("    int r; if (dead) break; if (flags & 1) move_state(); alarm(5); r = (int)%s_end(cur); alarm(0); fprintf(out, \"R end %%d -1 \", r); snap(cur); check_guard();" % n)
     else:
         w("    fprintf(out, \"NOEND\\n\");")
     w("    break; }")
